@@ -2,7 +2,7 @@ HOOKS = {
     'guard': 'verif',
     'enable': 'go build -tags verif (harness module with replace => /repo)',
     'baseline_off_cmd': 'cd /repo && GOFLAGS=-mod=mod GOPROXY=off go test -vet=off -count=1 -timeout 25m ./...',
-    'source_commits': [],
+    'source_commits': ['05f56bd'],
     'add_only': True,
 }
 NOTES = 'Every check: regenerates coq/gen from /repo, full make of the Coq development, re-checks Props/<id>.v (Print Assumptions), rebuilds harness and extracted model, runs the differential correspondence, writes evidence/<id>.json. See DESIGN.md.'
@@ -72,5 +72,14 @@ CHECKS['C10'] = dict(
     text='Kernel-checked, for every reachable state of a labelled transition system of the node (node loop, provider hand-over, per channel the reader, runner and writer goroutines, the two-phase pushEvent, the application consumer, Write* callers, Close; one label = one atomic goroutine step or one channel rendezvous; ALL schedules and ALL input histories by induction over the label sequence): what the application received from a channel is, in order, a prefix of what that channel attempted to deliver; that sequence is open, then per read result in arrival order its events, then close (a function of the channel\'s own inputs); nothing is lost unless the node was closed; open comes first; close comes once and last. Tied to the real node by scenario runs (scripted transports, random chunking, consumer fast/slow/bursty, concurrent writers, Close racing with delivery) whose per-channel observations are compared with the prediction obtained from the frame-reader model.',
     note='The LTS is hand-written from node.go / channel.go / channel_provider.go (goroutine program counters; Go channel and select semantics are modelled); the correspondence with the Go code is by scenario observation, not by differential execution of the LTS. Scheduler perturbation is search. Trusted: Coq kernel, extraction (reader model), driver, scenario harness.',
     technique='Coq proof (inductive invariant over an LTS of the node, all schedules) + scenario correspondence against the real Node')
+
+CHECKS['C11'] = dict(
+    text='Kernel-checked for every reachable state of the node LTS (all schedules): a submission is enqueued only on channels its target selects (all / one / all-but-one), at most once each; what a channel accepted is, in rendezvous order, exactly one copy of each submission enqueued on it; what reached its wire is an ordered sub-sequence of that, one transport write per item; nothing is dropped while the backlog is below 64 on an open channel; writes naming a closed channel change nothing. Tied to the real Node by scenarios with 1..3 concurrent submitters using the six Write* calls over 1..5 channels, whose wires are checked by the extracted acceptance predicate and for header fields / per-link sequence numbers.',
+    note='The loop\'s fan-out over the channel set is one atomic label of the LTS (each ch.write is a single non-blocking channel operation on a distinct queue). LTS hand-written; correspondence by scenario observation. Trusted: Coq kernel, extraction, driver, scenario harness.',
+    technique='Coq proof (inductive invariants over the node LTS: queue split, dispatch log) + scenario correspondence with extracted acceptance predicates')
+CHECKS['C13'] = dict(
+    text='Kernel-checked on the node LTS (all schedules): every channel queue holds at most 64 items; the wire of a channel is an ordered sub-sequence of what was submitted to it (overflow discards, never reorders); the loop can always take the next submission whatever state the channels are in and whether a channel goroutine can step depends on that channel only (a blocked transport delays nobody else); a writer goroutine ends only while its channel is being closed (after the repair of F6 a failed write makes it go on). Tied to the real Node by scenarios: a transport blocked in Write under 100..250 broadcast writes, transport write failures at random call positions, unencodable items at random positions.',
+    note='LTS hand-written; correspondence by scenario observation; scheduler perturbation is search. Trusted: Coq kernel, extraction, driver, scenario harness.',
+    technique='Coq proof (inductive invariants over the node LTS) + fault-injection scenarios against the real Node')
 
 NOT_APPLICABLE = [{'property_id': p, 'reason': PENDING} for p in ALL if p not in CHECKS]
